@@ -205,7 +205,7 @@ private:
 
     void read_binary_bit_row( byte_t* dst )
     {
-        this->_io_dev.read( dst
+        this->_io_dev.read_all( dst
                     , this->_scanline_length
                     );
 
@@ -216,7 +216,7 @@ private:
 
     void read_binary_byte_row( byte_t* dst )
     {
-        this->_io_dev.read( dst
+        this->_io_dev.read_all( dst
                     , this->_scanline_length
                     );
     }
